@@ -109,6 +109,34 @@ for n in (2, 3):
     if rel(td[-1], st) > 1e-8:
         bad.append("%d-mer: time-dependent Redfield tensor at its last index differs from the static tensor: %.3e" % (n, rel(td[-1], st)))
 
+# ---- uncoupled sites: time-local second-order theory is exact; propagation reproduces exp(-i w t - g(t)) up to the step error -------
+try:
+    from quantarhei.spectroscopy.abscalculator import _c2g
+    devs = []
+    for dt_ in (1.0, 0.5):
+        ta_ = qr.TimeAxis(0.0, int(300 / dt_), dt_)
+        with qr.energy_units("1/cm"):
+            ma, mb = qr.Molecule([0.0, 12000.0]), qr.Molecule([0.0, 12300.0])
+            cf_ = qr.CorrelationFunction(ta_, dict(ftype="OverdampedBrownian", reorg=30.0, cortime=60.0, T=300.0, matsubara=30))
+            ma.set_transition_environment((0, 1), cf_)
+            mb.set_transition_environment((0, 1), cf_)
+            ag_ = qr.Aggregate([ma, mb])
+        ag_.build()
+        hm_, sb_ = ag_.get_Hamiltonian(), ag_.get_SystemBathInteraction()
+        hm_.set_rwa([0, 1])
+        pr_ = qr.ReducedDensityMatrixPropagator(ta_, hm_, TDRedfieldRelaxationTensor(hm_, sb_))
+        r0_ = qr.ReducedDensityMatrix(dim=3)
+        r0_.data[:, :] = numpy.array([[0.5, 0.5, 0.0], [0.5, 0.5, 0.0], [0, 0, 0]])
+        rt_ = pr_.propagate(r0_)
+        rt_.convert_from_RWA(hm_)
+        want_ = 0.5 * numpy.exp(-1j * numpy.array(hm_.data)[1, 1] * ta_.data - _c2g(ta_, cf_.data))
+        devs.append(abs(numpy.array(rt_.data)[:, 1, 0] - want_).max())
+    if devs[0] > 2e-2 or devs[1] > 0.75 * devs[0] + 1e-6:
+        bad.append("uncoupled sites: optical coherence deviates from exp(-i w t - g(t)) by %.3e at 1 fs and %.3e at 0.5 fs steps "
+                   "(not a time-step error)" % (devs[0], devs[1]))
+except Exception as e:      # noqa
+    bad.append("pure-dephasing limit raised %s: %s" % (type(e).__name__, str(e)[:120]))
+
 for b in bad[:12]:
     print("VIOLATED:", b)
 print("C07 oracle: %d violations" % len(bad))
